@@ -21,8 +21,9 @@ What is done here
     `temporary_override_get_registry_at`, the start and end of every operation is computed by an OWN evaluator of the relation
     equations over the link FIELDS (never `get_start_time`, never a memo); the nodes are found by an own walk over
     `_outgoing_pointers`; a leaf operation's length is the length the real object reports under the table in force
-    (no memo is involved in that), a composite's length is the library's depth-1 / relation-leaf quantity (C04 is judged elsewhere: if it
-    makes a follower start early, the leaf operations overlap and that IS seen here);
+    (no memo is involved in that), a composite's length is the span of the block: latest end minus earliest start over ALL nodes of the
+    block (own walk; the definition CircuitCompositeOperation.duration has since the C04 repair -- the reported-times comparison checks
+    that the real objects agree);
   * clauses 1 and 2 are evaluated on these times by an own sweep per qubit (ChannelIdentifier matching rewritten here: same
     qubit and (same channel or one of them ALL); open intervals: a.start < b.end and b.start < a.end);
   * the times REPORTED by the real objects (start_time / duration, caches cleared first: stale memos are C03's business) must
@@ -373,7 +374,7 @@ def walk_all_ops(comp, out=None):
 
 class Structure:
     """duration-independent view of one circuit, compiled once: operation objects found by the own walk, link FIELDS resolved to
-    indices, composite membership (depth-1 members, relation-leaf members), channel occupation per qubit, and an evaluation order
+    indices, composite membership (ALL nodes of the block, own walk), channel occupation per qubit, and an evaluation order
     in which every operation comes after the operations its link refers to and (sub-circuit) after its members."""
 
     def __init__(self, circuit):
@@ -406,16 +407,12 @@ class Structure:
                 ridx.append(self.index[id(r)])
             self.link.append((multi, ridx, link._relation_type.name))
             if is_composite(o):
-                d1, lf, _ = composite_nodes(o)
                 mem = []
-                for group in (d1, lf):
-                    g = []
-                    for n in group:
-                        if id(n.operation) not in self.index:
-                            self._add(n.operation)
-                        g.append(self.index[id(n.operation)])
-                    mem.append(g)
-                self.members.append(tuple(mem))
+                for n in composite_nodes(o)[2]:          # every node of the block
+                    if id(n.operation) not in self.index:
+                        self._add(n.operation)
+                    mem.append(self.index[id(n.operation)])
+                self.members.append(mem)
             else:
                 self.members.append(None)
             i += 1
@@ -461,7 +458,7 @@ class Structure:
     def _deps(self, i):
         d = list(self.link[i][1])
         if self.members[i] is not None:
-            d += self.members[i][0] + self.members[i][1]
+            d += self.members[i]
         return d
 
     def nontrivial(self):
@@ -475,7 +472,7 @@ class Evaluator:
       start = 0 without reference; end(ref) / start(ref) / end(ref) - own length for FOLLOWED_BY / JOINED_START / JOINED_END;
       the reference of a multi-link is the first member of the group with the latest end.
       leaf length: what the real object's duration strategy returns under the durations in force (no memo involved);
-      composite length: latest end of a relation-leaf member minus earliest start of a depth-1 member (the library's definition)."""
+      composite length: span of the block = latest end minus earliest start over ALL nodes of the block (0 for an empty block)."""
 
     def __init__(self, structure):
         S = self.S = structure
@@ -491,13 +488,12 @@ class Evaluator:
                 o = nodes[i]
                 d[i] = o.duration_strategy.get_variable_duration(o)
             else:
-                d1, lf = mem
-                if not d1:
+                if not mem:
                     d[i] = 0.0
                 else:
-                    rel = min(s[j] for j in d1)
+                    rel = min(s[j] for j in mem)
                     v = 0.0
-                    for j in lf:
+                    for j in mem:
                         delta = s[j] + d[j] - rel
                         if delta > v:
                             v = delta
@@ -676,6 +672,12 @@ def check_structure(circuit, case, phase, tables, stats, n_reported, built_keys=
         stats.probe["same_ops_bad"] += 1
     stats.probe["dangling"] += S.dangling
     nontrivial = S.nontrivial()
+    # reading the reported times is the expensive part on large circuits (the library recomputes a block's span over all of its
+    # nodes on every read): fewer tables are read back there; clauses 1, 2 are still evaluated under every table
+    if len(S.leaf) > 250:
+        n_reported = max(1, n_reported // 4)
+    elif len(S.leaf) > 120:
+        n_reported = max(1, n_reported // 2)
     kind = "cal" if ctor == "cal" else case["desc"]["kind"]
     size = (case_cost(case), {"chain": 0, "default": 1, "cal": 1, "layout": 2, "composite": 3}[kind], canon(case))
     raised = set()
@@ -795,7 +797,7 @@ def run_job(job):
         return stats
     tables = tables_for(case, tier, seed)
     if job.get("yaml"):
-        tables = [None] + tables
+        tables = tables[:1] + [None] + tables[1:]
     n_rep = N_REPORTED[tier]
     try:
         built = make_phase(case, "built")
@@ -809,7 +811,7 @@ def run_job(job):
         check_structure(unrolled, case, "unrolled", tables, stats, n_rep, built_keys)
         if job.get("after_read", True):
             again = make_phase(case, "unrolled_after_read", built)
-            check_structure(again, case, "unrolled_after_read", tables[:max(8, len(tables) // 3)], stats, 2, built_keys)
+            check_structure(again, case, "unrolled_after_read", tables[:max(8, len(tables) // 3)], stats, 1 if tier == "quick" else 2, built_keys)
     except RecursionError:
         stats.skip("harness error: recursion limit")
     except Exception as err:   # never silent: the driver sees a harness error (exit code 2)
@@ -1057,7 +1059,7 @@ def main(argv=None):
     res = common.Result(PROP)
     tier = "thorough" if args.tier == "thorough" else "quick"
     cases, info = make_cases(tier, args.seed)
-    jobs = [{"case": c, "tier": tier, "seed": args.seed, "yaml": (i % 25 == 0), "after_read": (tier != "quick" or i % 2 == 0)} for i, c in enumerate(cases)]
+    jobs = [{"case": c, "tier": tier, "seed": args.seed, "yaml": (i % 25 == 0), "after_read": (tier != "quick" or i % 3 == 0)} for i, c in enumerate(cases)]
     random.Random(args.seed).shuffle(jobs)      # a representative mix is evaluated first if the time budget cuts the run; smallest witness kept on merge
     deadline = time.time() + BUDGET[tier]
     total = Stats()
@@ -1073,7 +1075,7 @@ def main(argv=None):
     res.exhaustive = False
     res.rule = ("input = (constructor input, duration table). Constructor inputs: " + "; ".join(info) + ". Each input is built through the public "
                 "constructor and evaluated in three phases: as constructed (read through circuit.operations), after apply_modifiers on a fresh build, and "
-                "apply_modifiers after the as-constructed read. Duration tables [readout, microwave, flux, reset] put in force with "
+                + ("apply_modifiers after the as-constructed read (quick tier: every third input)." if tier == "quick" else "apply_modifiers after the as-constructed read.") + " Duration tables [readout, microwave, flux, reset] put in force with "
                 f"temporary_override_get_registry_at: {len(CORE_TABLES)} fixed tables (defaults, all equal, below/at/above the barrier length 0.5, readout < / == / > "
                 "microwave, ratios 2^-16 .. 2^16, a nanosecond table, two non-dyadic tables), "
                 + ("the readout x microwave grid over {1/64,1/4,1/2,1,2,3,64} with rotating flux / reset (98 tables)" if tier != "quick" else "8 sampled tables of the readout x microwave grid over {1/64,1/4,1/2,1,2,3,64}")
@@ -1098,7 +1100,7 @@ def main(argv=None):
                           " (these are the evaluations of the first two rows split by phase; evaluations = the unrolled ones)",
          "evaluations": n["unrolled"] + n["unrolled_after_read"]},
         {"function": "ICircuitOperation.start_time / duration (RelationLink.get_start_time, MultiRelationLink.get_start_time, CircuitCompositeOperation.duration)",
-         "contract": CLAUSE_R + " (every operation and sub-circuit)", "bound": bound + f"; first {N_REPORTED[tier]} tables of every structure (2 for unrolled_after_read)",
+         "contract": CLAUSE_R + " (every operation and sub-circuit)", "bound": bound + f"; first {N_REPORTED[tier]} tables of every structure (half of that above 120 operations, a quarter above 250; {1 if tier == 'quick' else 2} for unrolled_after_read)",
          "evaluations": n["reported"]},
     ]
     run_probes(res, total)
